@@ -25,11 +25,16 @@ fn str_call(rng: &mut Rng, api: Api, text: String) -> Call {
 }
 
 fn random_call(rng: &mut Rng, sc: &mut Scenario, file_no: &mut usize) -> Call {
-    let src = match rng.below(12) {
+    let src = match rng.below(13) {
+        12 => gen::repeated_construct(rng),
         10 | 11 => gen::macro_program(rng),
         0 | 1 | 2 => gen::polluter(rng),
         3 | 4 => gen::sensitive_probe(rng),
-        5 | 6 => gen::corpus_sv(rng, 1500).to_string(),
+        5 => gen::corpus_sv(rng, 1500).to_string(),
+        6 => {
+            let t = gen::corpus_sv(rng, 1200).to_string();
+            gen::inject_directives(rng, &t)
+        }
         7 => {
             let k = 1 + rng.usize_below(4);
             gen::sv_program(rng, k)
